@@ -100,15 +100,15 @@ Qed.
 Lemma keys_length : forall g, length (keys g) = length g.
 Proof. intros g. unfold keys. apply map_length. Qed.
 
-Lemma walk_terminates_visit : forall g maxd target root seen count,
-  lookup g 0 = None ->
-  walk (walk_fuel g) g maxd target 0 root [] seen count <> WOOF.
+Lemma walk_terminates_visit : forall fuel g maxd target root seen count,
+  lookup g 0 = None -> (length g < fuel)%nat ->
+  walk fuel g maxd target 0 root [] seen count <> WOOF.
 Proof.
-  intros g maxd target root seen count H0. apply walk_no_oof_gen.
+  intros fuel g maxd target root seen count H0 Hf. apply walk_no_oof_gen.
   - exact H0.
   - constructor.
   - intros x Hx. destruct Hx.
-  - unfold walk_fuel. rewrite keys_length. simpl. lia.
+  - rewrite keys_length. simpl. lia.
 Qed.
 
 (* The depth guard alone bounds the recursion on ANY table (also when object 0 is a page node). *)
@@ -164,6 +164,12 @@ Proof.
       assert (Hz : (Z.of_nat (maxh ts) <= z)%Z) by (apply IH; split; assumption). lia.
 Qed.
 
+Lemma nodup_app_r : forall (l l' : list N), NoDup (l ++ l') -> NoDup l'.
+Proof.
+  induction l as [|a l IH]; intros l' H; simpl in H; [exact H|].
+  inversion H; subst. apply IH. assumption.
+Qed.
+
 Lemma hgt_T : forall n ts, hgt (T n ts) = S (maxh ts).
 Proof. reflexivity. Qed.
 
@@ -185,25 +191,25 @@ Lemma kids_loop_sound : forall rec d, rec_sound rec d ->
                /\ Forall (fun t => (d + Z.of_nat (hgt t) <= eff_depth maxd + 1)%Z) ts.
 Proof.
   intros rec d Hrec ks. induction ks as [|k ks IH]; intros s c s' c' Hnd Hk; simpl in Hk.
-  - inversion Hk. subst. exists []. repeat split; [constructor | exact Hnd | constructor].
+  - inversion Hk. subst. exists []. split; [constructor | split; [reflexivity | split; [exact Hnd | constructor]]].
   - destruct k as [|n|]; [| |discriminate].
     + destruct (IH _ _ _ _ Hnd Hk) as [ts [Hu [Hs [Hn Hf]]]].
-      exists ts. repeat split; [constructor; exact Hu | exact Hs | exact Hn | exact Hf].
+      exists ts. split; [|split; [|split]]; [constructor; exact Hu | exact Hs | exact Hn | exact Hf].
     + destruct (lookup g n) as [[|[| | |] kk]|] eqn:El; try discriminate.
       * destruct (rec n s c) as [s1 c1| | |] eqn:Er; try discriminate.
         assert (Hn0 : n <> 0) by (intro E; subst; congruence).
         destruct (Hrec _ _ _ _ _ Hn0 Hnd Er) as [t [Hut [Hs1 [Hnd1 Hh]]]].
         destruct (IH _ _ _ _ Hnd1 Hk) as [ts [Hu [Hs [Hn Hf]]]].
-        exists (t :: ts). repeat split.
+        exists (t :: ts). split; [|split; [|split]].
         -- eapply UK_pages; eassumption.
         -- simpl. rewrite rev_app_distr, <- app_assoc, <- Hs1. exact Hs.
         -- exact Hn.
         -- constructor; assumption.
       * destruct (Z.eqb_spec (Z.of_N n) target) as [E|E]; [lia|].
         destruct (IH _ _ _ _ Hnd Hk) as [ts [Hu [Hs [Hn Hf]]]].
-        exists ts. repeat split; [eapply UK_page; eassumption | exact Hs | exact Hn | exact Hf].
+        exists ts. split; [|split; [|split]]; [eapply UK_page; eassumption | exact Hs | exact Hn | exact Hf].
       * destruct (IH _ _ _ _ Hnd Hk) as [ts [Hu [Hs [Hn Hf]]]].
-        exists ts. repeat split; [eapply UK_other; eassumption | exact Hs | exact Hn | exact Hf].
+        exists ts. split; [|split; [|split]]; [eapply UK_other; eassumption | exact Hs | exact Hn | exact Hf].
 Qed.
 
 Lemma walk_sound : forall fuel depth anc, rec_sound (fun k s c => walk fuel g maxd target depth k anc s c) depth.
@@ -215,15 +221,15 @@ Proof.
              kids_loop (fun k0 s0 c0 => walk f g maxd target (depth + 1) k0 a1 s0 c0) g target ks s1 c end
            = WNone s' c').
   { unfold kids_of. destruct (lookup g k) as [[|ty ks]|]; [discriminate| |].
-    - exists ks. repeat split; [discriminate | exact Hw].
-    - exists []. repeat split; [discriminate | exact Hw]. }
+    - exists ks. split; [reflexivity | split; [discriminate | exact Hw]].
+    - exists []. split; [reflexivity | split; [discriminate | exact Hw]]. }
   destruct Hkids as [ks [Hko [Hnn He]]].
   unfold enter in He. destruct (N.eqb_spec k 0) as [E0|E0]; [contradiction|].
   destruct (mem k anc); [discriminate|]. destruct (mem k s) eqn:Hms; [discriminate|].
   assert (Hnd1 : NoDup (k :: s)) by (constructor; [apply mem_false; exact Hms | exact Hnd]).
   destruct (kids_loop_sound _ (depth + 1)%Z (IH (depth + 1)%Z (k :: anc)) _ _ _ _ _ Hnd1 He)
     as [ts [Hu [Hs [Hn Hf]]]].
-  exists (T k ts). repeat split.
+  exists (T k ts). split; [|split; [|split]].
   - constructor; [exact Hnn | rewrite Hko; exact Hu].
   - simpl. rewrite <- app_assoc. simpl. exact Hs.
   - exact Hn.
@@ -292,7 +298,7 @@ Proof.
     simpl in Hnd. rewrite rev_app_distr, <- app_assoc in Hnd.
     inversion Hf as [|x l Hhx Hfl]; subst.
     assert (Hk0 : k <> 0) by (intro E; subst; congruence).
-    assert (Hndt : NoDup (rev (pre t) ++ seen)) by (apply NoDup_app_remove_l in Hnd; exact Hnd).
+    assert (Hndt : NoDup (rev (pre t) ++ seen)) by (apply nodup_app_r in Hnd; exact Hnd).
     destruct (IHt f maxd target d anc seen count Ht Hk0 Hincl Hndt Hhx) as [Ho|[c1 Hc1]].
     + rewrite Ho. left. reflexivity.
     + rewrite Hc1. simpl. rewrite rev_app_distr, <- app_assoc. apply IHk.
@@ -309,3 +315,72 @@ Proof.
     intros f maxd target d anc seen count Ht Hincl Hnd Hf. simpl. rewrite El. apply IHk; assumption.
 Qed.
 End Complete.
+
+(* ------------------------------------------------------------------ the statements used by Property.v *)
+
+Lemma unfold_incl :
+  forall g, (forall n t, Unfold g n t -> incl (pre t) (n :: keys g))
+         /\ (forall ks ts, UnfoldKids g ks ts -> incl (flat_map pre ts) (keys g)).
+Proof.
+  intros g.
+  apply Unfold_mutind with (P := fun n t _ => incl (pre t) (n :: keys g))
+                           (P0 := fun ks ts _ => incl (flat_map pre ts) (keys g)).
+  - intros n ts Hnn Hu IH. simpl. intros x [Hx|Hx]; [left; exact Hx | right; apply IH; exact Hx].
+  - intros x Hx. destruct Hx.
+  - intros ks ts Hu IH. exact IH.
+  - intros k ks0 t ks ts El Hut IHt Huk IHk. simpl. intros x Hx. apply in_app_or in Hx.
+    destruct Hx as [Hx|Hx]; [|apply IHk; exact Hx].
+    apply IHt in Hx. destruct Hx as [Hx|Hx]; [subst; eapply lookup_keys; exact El | exact Hx].
+  - intros k ks0 ks ts El Huk IHk. exact IHk.
+  - intros k ks0 ks ts El Huk IHk. exact IHk.
+Qed.
+
+Lemma walk_ok_iff : forall g maxd target root,
+  (target < 0)%Z -> lookup g 0 = None -> root <> 0 ->
+  ((exists s c, page_number g maxd target root = WNone s c) <->
+   (exists t, Unfold g root t /\ NoDup (pre t) /\ (Z.of_nat (hgt t) <= eff_depth maxd + 1)%Z)).
+Proof.
+  intros g maxd target root Ht H0 Hr. unfold page_number. split.
+  - intros [s [c Hw]].
+    destruct (walk_sound g maxd target Ht H0 _ _ _ _ _ _ _ _ Hr (NoDup_nil N) Hw) as [t [Hu [Hs [Hn Hh]]]].
+    exists t. split; [exact Hu|]. split; [|lia].
+    subst s. rewrite app_nil_r in Hn. apply NoDup_rev in Hn. rewrite rev_involutive in Hn. exact Hn.
+  - intros [t [Hu [Hn Hh]]].
+    destruct (walk_complete_mut g H0) as [Hc _].
+    assert (Hnd : NoDup (rev (pre t) ++ [])) by (rewrite app_nil_r; apply NoDup_rev; exact Hn).
+    destruct (Hc _ _ Hu (walk_fuel g maxd) maxd target 0%Z [] [] 0%Z Ht Hr (incl_refl _) Hnd ltac:(lia)) as [Ho|[c Hcw]].
+    + exfalso. eapply walk_terminates_visit; [exact H0 | | exact Ho]. unfold walk_fuel. lia.
+    + eexists. eexists. exact Hcw.
+Qed.
+
+Lemma walk_visits_bound : forall g maxd target root s c,
+  (target < 0)%Z -> lookup g 0 = None -> root <> 0 ->
+  page_number g maxd target root = WNone s c ->
+  NoDup s /\ (length s <= S (length g))%nat.
+Proof.
+  intros g maxd target root s c Ht H0 Hr Hw. unfold page_number in Hw.
+  destruct (walk_sound g maxd target Ht H0 _ _ _ _ _ _ _ _ Hr (NoDup_nil N) Hw) as [t [Hu [Hs [Hn Hh]]]].
+  split; [exact Hn|].
+  destruct (unfold_incl g) as [Hi _]. specialize (Hi _ _ Hu).
+  subst s. rewrite app_nil_r in *. 
+  assert (Hincl : incl (rev (pre t)) (root :: keys g)).
+  { intros x Hx. apply Hi. apply in_rev. exact Hx. }
+  pose proof (NoDup_incl_length Hn Hincl) as Hl. simpl in Hl. rewrite keys_length in Hl. exact Hl.
+Qed.
+
+Lemma eff_depth_pos : forall maxd, (0 < eff_depth maxd)%Z.
+Proof. intros maxd. unfold eff_depth, default_max_depth. destruct (Z.leb_spec maxd 0); lia. Qed.
+
+Lemma walk_terminates_depth : forall fuel g maxd target root anc seen count,
+  (eff_depth maxd + 1 < Z.of_nat fuel)%Z -> walk fuel g maxd target 0 root anc seen count <> WOOF.
+Proof.
+  intros fuel g maxd target root anc seen count H. pose proof (eff_depth_pos maxd).
+  apply walk_no_oof_depth; lia.
+Qed.
+
+(* page_number's own fuel is never exhausted, on any table *)
+Lemma page_number_total : forall g maxd target root, page_number g maxd target root <> WOOF.
+Proof.
+  intros g maxd target root. unfold page_number. apply walk_terminates_depth.
+  pose proof (eff_depth_pos maxd). unfold walk_fuel. lia.
+Qed.
